@@ -4,7 +4,7 @@ import os
 
 import common as C
 
-RULE = ("inputs: every byte string of length 0..1 (thorough: 0..2), seeded byte strings of length 2, every single-bit "
+RULE = ("inputs: EVERY byte string of length 0..2 (both tiers; the two-byte strings take the CRC through all 65 536 values), every single-bit "
         "flip of the shipped frames, random strings up to 4 KiB, upper/lower/mixed-case spellings, and a malformed stream "
         "(odd length, non-hex, non-ASCII); a case is non-trivial when its byte string is non-empty and distinct "
         "by (CRC value | rejection kind)")
@@ -88,12 +88,10 @@ def streams(ctx: C.Ctx):
     rng = ctx.rng
     # exhaustive short strings
     short = [""] + ["%02x" % b for b in range(256)]
-    if ctx.quick:
-        two = ["%04x" % rng.randrange(65536) for _ in range(5000)]
-        ctx.run_cases(SIGN, "short-0..1-exhaustive", short, exhaustive=True)
-        ctx.run_cases(SIGN, "len2-seeded", two, exhaustive=False)
-    else:
-        ctx.run_cases(SIGN, "short-0..2-exhaustive", short + ["%04x" % v for v in range(65536)], exhaustive=True)
+    # every string of 0..2 bytes, in both tiers: the 65 536 two-byte strings take the first CRC through EVERY 16-bit value exactly
+    # once (CRC-16 of two bytes is a bijection), hence also every reachable value of the second one — a defect confined to one
+    # CRC value (a table one slot short, a zero byte stripped) cannot hide from a sample
+    ctx.run_cases(SIGN, "short-0..2-exhaustive", short + ["%04x" % v for v in range(65536)], exhaustive=True, sample_every=9973)
     # bit flips of shipped frames
     frames = shipped_frames()
     flips = []
